@@ -378,6 +378,12 @@ def cases(rng, tier):
     for _ in range(6 if tier == "quick" else 40):
         acts = [rng.choice([0, 0, 2, 3, 4, 5, 6, 7, 8]) for _ in range(rng.range(2, 4))]
         out.append(build_history(rng.below(3), acts, kind=4))
+    # kind 6, long outages: the file is missing / unreadable for 255 .. 700 polls in a row, then a valid version
+    # appears: the thread has kept polling all the time and applies it (any count of consecutive failures narrower
+    # than the outage shows)
+    for n, fill in ((255, [4]), (256, [8]), (257, [4, 8]), (300, [4])) if tier == "quick" else ((255, [4]), (256, [8]), (257, [4, 8]), (300, [4]), (700, [8, 4, 4])):
+        acts = [fill[i % len(fill)] for i in range(n)] + [0, 1]
+        out.append(build_history(n % 3, acts, kind=6, RATES=LOCKSTEP_RATES[n % len(LOCKSTEP_RATES)], link=n % 2))
     return out
 
 
